@@ -121,6 +121,10 @@ class Repo:
                         for k, v in more.items():
                             self.partially_evaluated.setdefault(k, []).extend(v)
                         apply_synonyms(self)
+            from .normalize import renumber
+            for q in set(self.inlined) | set(self.partially_evaluated):
+                if q in self.funcs:
+                    renumber(self.funcs[q].node)
 
     def _inline_new_helpers(self, merge=False):
         """functions that are not in the reviewed baseline table (helpers introduced by a later change) are analysed at
